@@ -429,6 +429,55 @@ fn random_any(rng: &mut Rng, names: u32, sals: &[i32]) -> Op {
     }
 }
 
+fn large_case(rng: &mut Rng) -> String {
+    let classes: &[i32] = match rng.below(4) {
+        0 => &[-5, 0, 10],
+        1 => &[0, 5, 10, 20],
+        2 => &[i32::MIN, 0, 7, i32::MAX],
+        _ => &[1, 2, 3],
+    };
+    let target = rng.range(21, 48) as usize; // stored rules to reach
+    let mut ops: Vec<Op> = Vec::new();
+    let mut stored: Vec<u32> = Vec::new();
+    let mut removed: Vec<u32> = Vec::new();
+    let mut next = 0u32;
+    let mut extra = rng.range(3, 8); // calls after the target size has been reached (at least one of them an add)
+    let mut late_add = false;
+    while stored.len() < target || extra > 0 || !late_add {
+        let reached = stored.len() >= target;
+        if reached && extra > 0 {
+            extra -= 1;
+        }
+        let roll = if reached && extra == 0 && !late_add { 0 } else { rng.below(100) };
+        match roll {
+            0..=74 => {
+                ops.push(Op::Add(next, *rng.pick(classes), !rng.chance(1, 8)));
+                stored.push(next);
+                next += 1;
+                late_add = late_add || stored.len() > 21;
+            }
+            75..=82 if !stored.is_empty() => {
+                let n = stored.remove(rng.below(stored.len() as u64) as usize);
+                removed.push(n);
+                ops.push(Op::Remove(n));
+            }
+            83..=88 if !stored.is_empty() => ops.push(Op::SetEnabled(*rng.pick(&stored), rng.chance(1, 2))),
+            89..=92 if !stored.is_empty() => ops.push(Op::Add(*rng.pick(&stored), *rng.pick(classes), true)), // rejected duplicate
+            93..=97 if !removed.is_empty() => {
+                let n = removed.remove(rng.below(removed.len() as u64) as usize);
+                ops.push(Op::Add(n, *rng.pick(classes), true)); // re-add under an old name (new tag, new place among equals)
+                stored.push(n);
+                late_add = late_add || stored.len() > 21;
+            }
+            _ => {}
+        }
+        if ops.len() > 200 {
+            break;
+        }
+    }
+    format!("{} {} {}", if rng.chance(1, 5) { "T" } else { "S" }, next, show_ops(&ops))
+}
+
 fn gen(rng: &mut Rng, n: usize, tier: &str) -> Vec<String> {
     let mut out = Vec::new();
     // (1) exhaustive part (see `exhaustive`): length <= 4 over 4 names x 3 saliences and <= 5 over 2 x 2.
@@ -444,6 +493,14 @@ fn gen(rng: &mut Rng, n: usize, tier: &str) -> Vec<String> {
         let sals: &[i32] = if rng.chance(1, 5) { &wide } else { &SALS };
         let ops: Vec<Op> = (0..len).map(|_| random_mutator(rng, names, sals)).collect();
         out.push(format!("T {} {}", names, show_ops(&ops)));
+    }
+    // (2b) large knowledge bases: 21..48 stored rules (numbered names beyond the 4-name alphabet), 3-4 salience classes
+    // in non-monotone insertion order, interleaved with removals, toggles, rejected duplicates and re-adds; the full
+    // listing (get_rules, get_rules_by_salience + get_rule_by_index, ...) is observed after the last call (`S`) or after
+    // every call (`T`). Insertion order among equals must survive sorts of MORE than 20 elements (std's unstable
+    // sorts are insertion sorts — hence stable — up to 20 elements).
+    for _ in 0..(n / 25).max(8) {
+        out.push(large_case(rng));
     }
     // (3) concurrent histories: 3 threads x 4 calls on a shared knowledge base
     for _ in 0..(n / 8).max(1) {
